@@ -56,6 +56,7 @@ type Ctx struct {
 	strLits      map[string]*Term
 	typeTags     map[string]int
 	knownWitness map[string][]*Term
+	curTop       *ssa.Function
 }
 
 func NewCtx(P *Program, S *Specs) *Ctx {
@@ -105,6 +106,8 @@ type loopInfo struct {
 	pre     *State
 	hdrSt   *State
 	variant *Term
+	auto    func(st *State) *Term
+	frameKeys []string
 }
 
 func (c *Ctx) note(f string, a ...interface{}) {
@@ -276,7 +279,9 @@ func (fr *Frame) load(st *State, p *Val, t types.Type) *Val {
 				unsup("indexed cell pointer into non-array")
 			}
 			et := under(cv.T).(*types.Array).Elem()
-			return &Val{K: kindOf(et), T: et, X: Select(cv.X, p.Idx)}
+			el := Select(cv.X, p.Idx)
+			elemRangeFact(el, et)
+			return &Val{K: kindOf(et), T: et, X: el}
 		}
 		return cv
 	}
@@ -543,6 +548,35 @@ func (fr *Frame) enterLoop(li *loopInfo, pre *State) *State {
 		g := fr.evalBool(inv.Expr, pre, fr.Entry, nil)
 		c.oblige(fr, "inv-entry", clauseName(name, inv, i), pre, g, "loop invariant holds on entry: "+inv.Src, li.header.Instrs[0].Pos())
 	}
+	li.auto = fr.rangeIndexPattern(li)
+	if li.auto != nil {
+		if g := li.auto(pre); g != nil {
+			c.oblige(fr, "inv-entry", name+".auto", pre, g, "range loop index stays within [-1, len)", li.header.Instrs[0].Pos())
+		}
+	}
+	// implicit frame invariant: for a function with a modifies clause, objects allocated at entry keep the contents of the
+	// heap arrays this loop writes (unless the array is listed in modifies)
+	if fr.Top && fr.Con != nil && fr.Con.ModSet {
+		w0 := newWriteSet()
+		var bl []*ssa.BasicBlock
+		for b := range li.body {
+			bl = append(bl, b)
+		}
+		c.scanWrites(bl, w0, 0, map[*ssa.Function]bool{})
+		if !w0.all {
+			var keys []string
+			for k := range heapSorts {
+				if pfx, hit := matchPrefix(prefixList(w0), k); hit && !w0.freshOnly[pfx] && heapSorts[k].Idx == SInt && !fr.keyInModifies(k) && !strings.HasPrefix(k, "G:") {
+					keys = append(keys, k)
+				}
+			}
+			sort.Strings(keys)
+			li.frameKeys = keys
+			for _, k := range keys {
+				c.oblige(fr, "inv-entry", name+".frame:"+k, pre, fr.frameInv(k, pre), "entry-allocated objects keep their "+k+" (implicit frame invariant)", li.header.Instrs[0].Pos())
+			}
+		}
+	}
 	// 2. havoc what the body may write (static, type-based write set)
 	w := newWriteSet()
 	var blocks []*ssa.BasicBlock
@@ -567,18 +601,47 @@ func (fr *Frame) enterLoop(li *loopInfo, pre *State) *State {
 	for _, f := range facts {
 		c.addFact(f)
 	}
+	defer func() {
+		// every reference held in a havoced cell is an allocated object
+		for _, b := range fr.Fn.Blocks {
+			for _, ins := range b.Instrs {
+				if a, ok := ins.(*ssa.Alloc); ok && w.cells[a] {
+					c.allocFacts(li.hdrSt.Cells[a], li.hdrSt.Alloc)
+				}
+			}
+		}
+	}()
 	if w.all {
 		c.note("%s: loop %d contains a call or operation with unknown effects: whole heap havoced", fr.Fn, li.ordinal)
 		st.havocAll()
 	} else {
+		// Keys whose only writes in the body go to objects allocated inside the body are NOT havoced: at an arbitrary
+		// iteration the array differs from the pre-loop array only at references >= the pre-loop allocation counter, and
+		// no fact constrains the pre-loop array there (quantifiers over pointers are guarded by `allocated`).
 		var ps []string
 		for p := range w.prefixes {
-			ps = append(ps, p)
+			if !w.freshOnly[p] {
+				ps = append(ps, p)
+			}
 		}
 		sort.Strings(ps)
-		st.havocKeys(ps, w.freshOnly)
+		st.havocKeys(ps, nil)
+		if len(ps) == 0 {
+			a := Fresh("alloc", SInt)
+			nonNegSyms[a.Name] = true
+			c.addFact(Le(st.Alloc, a))
+			st.Alloc = a
+		}
 	}
 	// 3. assume invariant
+	for _, k := range li.frameKeys {
+		c.addFact(Implies(st.R, fr.frameInv(k, st)))
+	}
+	if li.auto != nil {
+		if g := li.auto(st); g != nil {
+			c.addFact(Implies(st.R, g))
+		}
+	}
 	for _, inv := range invs {
 		g := fr.evalBool(inv.Expr, st, fr.Entry, nil)
 		c.addFact(Implies(st.R, g))
@@ -588,6 +651,82 @@ func (fr *Frame) enterLoop(li *loopInfo, pre *State) *State {
 	}
 	li.hdrSt = st
 	return st
+}
+
+func prefixList(w *writeSet) []string {
+	var ps []string
+	for p := range w.prefixes {
+		ps = append(ps, p)
+	}
+	sort.Strings(ps)
+	return ps
+}
+
+// keyInModifies reports whether the heap key may be written according to the function's modifies clause (by type).
+func (fr *Frame) keyInModifies(k string) bool {
+	for _, m := range fr.Con.Modifies {
+		if m == "*" {
+			return true
+		}
+		ps, ok := fr.C.modPrefixesOwn(fr, m)
+		if !ok {
+			return true
+		}
+		if _, hit := matchPrefix(ps, k); hit {
+			return true
+		}
+	}
+	return false
+}
+
+func (fr *Frame) frameInv(k string, st *State) *Term {
+	srt := heapSorts[k]
+	q := BoundVar("r", SInt)
+	return Forall([]*Term{q}, Implies(And(Le(Num(0), q), Lt(q, fr.Entry.Alloc)), Eq(Select(st.heapGet(k, srt), q), Select(fr.Entry.heapGet(k, srt), q))))
+}
+
+// rangeIndexPattern recognises the header of `for i := range slice` (load rangeindex; +1; store; compare with len) and
+// returns the automatic invariant -1 <= rangeindex < len.
+func (fr *Frame) rangeIndexPattern(li *loopInfo) func(st *State) *Term {
+	ins := li.header.Instrs
+	if len(ins) < 5 {
+		return nil
+	}
+	ld, ok := ins[0].(*ssa.UnOp)
+	if !ok || ld.Op != token.MUL {
+		return nil
+	}
+	cell, ok := ld.X.(*ssa.Alloc)
+	if !ok || cell.Comment != "rangeindex" || cell.Heap {
+		return nil
+	}
+	add, ok := ins[1].(*ssa.BinOp)
+	if !ok || add.Op != token.ADD || add.X != ld {
+		return nil
+	}
+	var cmp *ssa.BinOp
+	for _, in := range ins[2:] {
+		if b, ok := in.(*ssa.BinOp); ok && b.Op == token.LSS && b.X == add {
+			cmp = b
+		}
+	}
+	if cmp == nil {
+		return nil
+	}
+	lenVal, ok := fr.Regs[cmp.Y]
+	if !ok {
+		if _, isC := cmp.Y.(*ssa.Const); !isC {
+			return nil
+		}
+		lenVal = fr.C.constVal(cmp.Y.(*ssa.Const))
+	}
+	return func(st *State) *Term {
+		cv, ok := st.Cells[cell]
+		if !ok {
+			return nil
+		}
+		return And(Le(Num(-1), cv.X), Lt(cv.X, lenVal.X), Le(Num(0), lenVal.X))
+	}
 }
 
 func clauseName(prefix string, cl Clause, i int) string {
@@ -606,6 +745,14 @@ func clauseName(prefix string, cl Clause, i int) string {
 func (fr *Frame) backEdge(li *loopInfo, st *State, pos token.Pos) {
 	c := fr.C
 	name := fmt.Sprintf("L%d", li.ordinal)
+	if li.auto != nil {
+		if g := li.auto(st); g != nil {
+			c.oblige(fr, "inv-step", name+".auto", st, g, "range loop index stays within [-1, len)", pos)
+		}
+	}
+	for _, k := range li.frameKeys {
+		c.oblige(fr, "inv-step", name+".frame:"+k, st, fr.frameInv(k, st), "entry-allocated objects keep their "+k+" (implicit frame invariant)", pos)
+	}
 	if li.spec == nil {
 		return
 	}
@@ -710,7 +857,9 @@ func (fr *Frame) step(st *State, ins ssa.Instruction, b *ssa.BasicBlock, edgeSt 
 		case KArr:
 			n := under(v.T).(*types.Array).Len()
 			fr.checkBounds(st, i.X, Num(n), "index", x.Pos())
-			fr.Regs[x] = &Val{K: kindOf(x.Type()), T: x.Type(), X: Select(v.X, i.X)}
+			el := Select(v.X, i.X)
+			elemRangeFact(el, x.Type())
+			fr.Regs[x] = &Val{K: kindOf(x.Type()), T: x.Type(), X: el}
 		case KStr:
 			fr.checkBounds(st, i.X, App("str.len", SInt, v.X), "index", x.Pos())
 			r := App("str.at", SInt, v.X, i.X)
@@ -897,12 +1046,24 @@ func (fr *Frame) checkNil(st *State, p *Val, what string, pos token.Pos) {
 	fr.C.oblige(fr, "safe", "nil@"+fr.C.posKey(pos), st, g, "nil dereference ("+what+")", pos)
 }
 
+// posKey names a program point: the line offset from the start of the function under verification (stable under edits
+// elsewhere in the file), or file:line for points in inlined callees.
 func (c *Ctx) posKey(pos token.Pos) string {
 	if !pos.IsValid() {
 		return "?"
 	}
 	p := c.P.Fset.Position(pos)
-	return fmt.Sprintf("L%d", p.Line)
+	if c.curTop != nil && c.curTop.Syntax() != nil {
+		s := c.curTop.Syntax()
+		if pos >= s.Pos() && pos <= s.End() {
+			return fmt.Sprintf("+%d", p.Line-c.P.Fset.Position(s.Pos()).Line)
+		}
+	}
+	f := p.Filename
+	if i := strings.LastIndex(f, "/"); i >= 0 {
+		f = f[i+1:]
+	}
+	return fmt.Sprintf("%s:%d", strings.TrimSuffix(f, ".go"), p.Line)
 }
 
 func (fr *Frame) checkBounds(st *State, i, n *Term, what string, pos token.Pos) {
